@@ -74,6 +74,8 @@ type BatchedWriter struct {
 	store          KVStore
 	writeWg        sync.WaitGroup
 	startStopMutex syncutils.Mutex
+	// enqueueMutex is held for reading by Enqueue from its running check until the object is handed over
+	enqueueMutex   syncutils.RWMutex
 	autoStartOnce  sync.Once
 	running        atomic.Bool
 	scheduledCount atomic.Int32
@@ -120,7 +122,11 @@ func (bw *BatchedWriter) startBatchWriter() {
 func (bw *BatchedWriter) StopBatchWriter() {
 	bw.startStopMutex.Lock()
 	if bw.running.Load() {
+		// wait for Enqueue calls that already passed the running check: they still have to hand over their
+		// object, otherwise it would be queued (or block forever on a full queue) after the writer has exited
+		bw.enqueueMutex.Lock()
 		bw.running.Store(false)
+		bw.enqueueMutex.Unlock()
 
 		bw.writeWg.Wait()
 	}
@@ -135,6 +141,9 @@ func (bw *BatchedWriter) Enqueue(object BatchWriteObject) {
 			bw.startBatchWriter()
 		}
 	})
+
+	bw.enqueueMutex.RLock()
+	defer bw.enqueueMutex.RUnlock()
 
 	// abort if the BatchWriter has been stopped
 	if !bw.running.Load() {
